@@ -8,7 +8,9 @@
 (*     is tight (its first / last day can be a holiday or a weekend day) and the driver asks at   *)
 (*     and next to the ends without knowing the claimed domain: questions outside it are not      *)
 (*     judged.  edge = 0: the driver stays inside the domain by construction and leaving it is    *)
-(*     reported.                                                                                  *)
+(*     reported.  Where a posed question leaves the range (edge = 1) the outcome is the answer by    *)
+(*     counting or a refusal (RefusalBeyondRange) - never another date.  The field r of a query      *)
+(*     names the realisation of the day the driver used; the law does not read it.                   *)
 (* (2) one recorded HISTORY of the registry on real calendars (evs |-> << event, ... >>):         *)
 (*   [op |-> "reg",  k, p, out]       calendar(k, <what p gives>)      out = the holidays listed  *)
 (*   [op |-> "con",  k, p, adj, out]  Calendar(k, <what p gives>, adj)                            *)
@@ -16,6 +18,9 @@
 (*   [op |-> "regw", o, p, out]       calendar(obj, <what p gives>)                               *)
 (*   [op |-> "fetch", k, out]         calendar(k).holidays                                        *)
 (*   [op |-> "q", k, q, out]          calendar(k).<query>      [op |-> "qo", o, q, out]  obj.<query> *)
+(*   [op |-> "setadj", o, adj, out]   obj.adj = adj  (a loose handle)   out = obj.adj afterwards    *)
+(*   [op |-> "copy", o, out]  Calendar(obj)   [op |-> "copyk", k, out]  Calendar(calendar(k))       *)
+(*   [op |-> "copyw", o, adj, out]    obj(adj = adj)                   out = the holidays listed   *)
 (*     p = [hol, wk, lo, hi], each <<>> (not given) or <<value>> (given, possibly empty).  The    *)
 (*     specification walks the history with the law of Calendar.tla part 4 (RegisteredCfg /       *)
 (*     DerivedCfg: what each key was last registered with) and judges every outcome.              *)
@@ -32,9 +37,10 @@ Judge(k, e, edge) ==
     LET q == e.q  out == e.out IN
     IF q.op = "fetch" THEN (IF out.kind = "val" /\ out.v = SetToSortSeq(k.hol, <) THEN "" ELSE "registry_reflects_holidays")
     ELSE IF MonthNo(q.t) # MonthOf(q.t) THEN "spec_monthno"                      \* self-check of the specification
-    ELSE IF ~InDomain(k, q) THEN (IF edge THEN "" ELSE "out_of_domain")
+    ELSE IF "r" \in DOMAIN q /\ q.r \notin Reals THEN "bad_config"
+    ELSE IF ~Posed(k, q) \/ (~InDomain(k, q) /\ ~edge) THEN (IF edge THEN "" ELSE "out_of_domain")
     ELSE IF ~Pinned(k, q) THEN ""
-    ELSE IF out.kind = "val" /\ out.v \in AcceptedAnswers(k, q) THEN "" ELSE q.op
+    ELSE IF Explained(k, q, out) THEN "" ELSE q.op
 
 VerdictCal(o) ==
     LET k == CfgOf(o) IN
@@ -53,8 +59,8 @@ At2(i, clause) == clause \o ":" \o ToString(i)
 JudgeQ(cf, e) ==
     LET q == e.q IN
     IF q.a = "" /\ q.op \notin {"is_bday", "is_holiday"} /\ cf.adj = "?" THEN ""
-    ELSE IF ~InDomain(cf, q) \/ ~Pinned(cf, q) THEN ""
-    ELSE IF e.out.kind = "val" /\ e.out.v \in AcceptedAnswers(cf, q) THEN "" ELSE "registry_query_" \o q.op
+    ELSE IF ~Posed(cf, q) \/ ~Pinned(cf, q) THEN ""
+    ELSE IF Explained(cf, q, e.out) THEN "" ELSE "registry_query_" \o q.op
 \* heap: the calendars in the order the driver obtained them, [key, cfg, loose]; reg: key -> position in the heap
 \* (0 = none).  loose = made with Calendar(...) and never registered: only such handles are asked directly (the
 \* statement speaks of calendars fetched by key, not of handles kept from earlier registrations)
@@ -83,6 +89,21 @@ Walk(evs, i, heap, reg) ==
            LET P == PIn(e.p)  cf == DerivedCfg(heap[e.o].cfg, P) IN
            IF ~AnyGiven(P) \/ ~WellCfg(cf) THEN At2(i, "bad_history")
            ELSE IF ~Lists(e.out, cf.hol) THEN At2(i, "registry_reflects_holidays") ELSE takes(heap[e.o].key, cf)
+      [] e.op = "setadj" ->
+           IF e.o \notin 1..Len(heap) \/ e.adj \notin {"f", "p", "m"} THEN At2(i, "bad_history")
+           ELSE IF ~heap[e.o].loose THEN At2(i, "bad_history")
+           ELSE IF ~(e.out.kind = "val" /\ e.out.v = e.adj) THEN At2(i, "caller_sets_adj")
+           ELSE Walk(evs, i + 1, [heap EXCEPT ![e.o].cfg.adj = e.adj], reg)
+      [] e.op \in {"copy", "copyw"} ->
+           IF e.o \notin 1..Len(heap) THEN At2(i, "bad_history") ELSE
+           LET cf == IF e.op = "copy" THEN heap[e.o].cfg ELSE [heap[e.o].cfg EXCEPT !.adj = e.adj] IN
+           IF ~heap[e.o].loose \/ cf.adj \notin {"f", "p", "m", "?"} THEN At2(i, "bad_history")
+           ELSE IF ~Lists(e.out, cf.hol) THEN At2(i, "registry_reflects_holidays")
+           ELSE Walk(evs, i + 1, Append(heap, [key |-> heap[e.o].key, cfg |-> cf, loose |-> TRUE]), reg)
+      [] e.op = "copyk" ->
+           IF e.k \notin TKeys \/ reg[e.k] = 0 THEN At2(i, "bad_history")
+           ELSE IF ~Lists(e.out, heap[reg[e.k]].cfg.hol) THEN At2(i, "registry_reflects_holidays")
+           ELSE Walk(evs, i + 1, Append(heap, [key |-> e.k, cfg |-> heap[reg[e.k]].cfg, loose |-> TRUE]), reg)
       [] e.op = "fetch" ->
            IF e.k \notin TKeys \/ reg[e.k] = 0 THEN At2(i, "bad_history")
            ELSE IF ~Lists(e.out, heap[reg[e.k]].cfg.hol) THEN At2(i, "registry_reflects_holidays") ELSE Walk(evs, i + 1, heap, reg)
